@@ -771,8 +771,7 @@ impl Blockchain {
     }
 
     async fn add_block_transactions_back(&mut self, mempool: &mut Mempool, block: &mut Block) {
-        let wallet = mempool.wallet_lock.read().await;
-        let public_key = wallet.public_key;
+        let public_key = mempool.wallet_lock.read().await.public_key;
         if block.creator == public_key {
             let transactions = &mut block.transactions;
             let prev_count = transactions.len();
@@ -794,7 +793,7 @@ impl Blockchain {
                 (prev_count - transactions.len())
             );
             for tx in transactions {
-                mempool.transactions.insert(tx.signature, tx);
+                mempool.add_transaction(tx).await;
             }
             mempool.new_tx_added = true;
         }
